@@ -36,7 +36,32 @@ Example C12_example :
             /\ fport f = 10%N /\ frm f = [222; 173; 190; 239]%N /\ length (cs_cmds (fopts f)) = 2.
 Proof. eexists. vm_compute. repeat split; reflexivity. Qed.
 
+From Lospan Require Import Proof.MacSetProof Proof.FrameEncodeProof.
+Open Scope N_scope.
+(* Encode direction. Every data frame the encoder accepts is laid out exactly as section 4 of the specification
+   prescribes - MHDR = type*32 + major, the 32-bit address and the 16-bit counter little endian, FCtrl = the
+   flags (pending and class B are one bit) plus the number of option bytes written, the option bytes, then
+   nothing / the port and the payload / port 0 and the MAC commands, then the MIC little endian ... *)
+Theorem C12_encode_layout :
+  forall f bs, frame_wf f -> encode f = Ok bs ->
+  exists fo body, set_encode buffer_size 8 (fopts f) = Ok fo /\ (length fo <= 15)%nat /\ body_of f body /\
+    bs = spec_layout (mtype f) (major f) (nwkid (f_devaddr f) * 33554432 + nwkaddr (f_devaddr f))
+           (adr (fc f)) (adrackreq (fc f)) (ack (fc f)) (fpending (fc f) || classb (fc f)) (fcnt f) fo body (mic f).
+Proof. exact encode_is_the_specified_layout. Qed.
+(* ... and the specification's reader recovers every field from that layout, so (C12_accepts_conformant) the
+   library's own decoder accepts what the encoder wrote and reports the same values. *)
+Theorem C12_layout_reads_back :
+  forall mt mj addr a b c d cnt fo body m,
+  mt < 8 -> mj < 4 -> addr < 4294967296 -> cnt < 65536 -> m < 4294967296 -> (length fo <= 15)%nat ->
+  spec_decode (spec_layout mt mj addr a b c d cnt fo body m)
+  = Some {| s_mtype := mt; s_major := mj; s_addr := addr;
+            s_fctrl := b2n a * 128 + b2n b * 64 + b2n c * 32 + b2n d * 16 + N.of_nat (length fo);
+            s_fcnt := cnt; s_fopts := fo; s_port := hd_error body; s_payload := tl body; s_mic := m |}.
+Proof. exact spec_reads_the_layout. Qed.
+
 Print Assumptions C12_decode_follows_spec.
 Print Assumptions C12_memory_independence.
 Print Assumptions C12_rejects_unsupported.
 Print Assumptions C12_accepts_conformant.
+Print Assumptions C12_encode_layout.
+Print Assumptions C12_layout_reads_back.
